@@ -46,7 +46,7 @@ func runC10(p *Prog, r *Result) {
 	checkErrorPosSanitised(p, r, pkg, "R10m")
 	r.Rule("R10n", "every single-byte index into the read buffer is reached only through a bounds test against len(p.bs) or a refill that produced bytes", 5)
 	checkReadBufferIndexGuarded(p, r, pkg, "R10n")
-	r.Rule("R10d", "fill() advances the offset base exactly once per call (the update is not on a cycle)", 1)
+	r.Rule("R10d", "fill() advances the offset base by the cursor, once per call, before the cursor is reset", 1)
 
 	g := buildRefGraph(p)
 	pe, le := lookupType(pkg, "ParseError"), lookupType(pkg, "LangError")
@@ -227,36 +227,7 @@ func runC10(p *Prog, r *Result) {
 	}
 
 	// ---- R10d
-	if fd := p.FuncDecl("syntax", "Parser.fill"); fd != nil {
-		gph := NewFGraph(info, fd.Body, nil)
-		n := 0
-		for _, b := range gph.Blocks {
-			for _, nd := range b.Nodes {
-				as, ok := nd.(*ast.AssignStmt)
-				if !ok || as.Tok != token.ADD_ASSIGN || len(as.Lhs) != 1 {
-					continue
-				}
-				if fv := selectorField(info, as.Lhs[0]); fv == nil || fv.Name() != "offs" {
-					continue
-				}
-				n++
-				// on a cycle?
-				onCycle := false
-				for _, e := range b.Succs {
-					if gph.Reachable(e.To, nil)[b] {
-						onCycle = true
-					}
-				}
-				r.Check(!onCycle, "R10d", "syntax.(Parser).fill#offs += bsp", as.Pos(), "executed at most once per call",
-					"the offset base is advanced inside the read-retry loop: a reader that returns (0, nil) makes every later position drift past the input")
-			}
-		}
-		if n != 1 {
-			r.Undecided("R10d", "syntax.(Parser).fill#offs update", fd.Pos(), fmt.Sprintf("%d `p.offs +=` statements in fill (expected one)", n))
-		}
-	} else {
-		r.Fatalf("anchor Parser.fill not found")
-	}
+	checkOffsetBase(p, r, pkg, "R10d")
 }
 
 // checkCountersRule is checkCounters reporting under another rule name.
